@@ -5,7 +5,11 @@
     reports join the caller's;
   * tuple values: `a, b = (x, y) if c else (u, v)`, `p, q, r = (np.zeros(n, bool) for _ in range(3))`, `a, b = f(...)`;
   * walrus targets; `for` loops over literal tuples (of tuples) and `zip(...)` of them are typed iteration by iteration with the loop
-    variables bound.
+    variables bound;
+  * (second pass) local helpers (nested `def`) are followed with the enclosing scope visible; dicts with constant string keys (`dict(F=..., ...)`,
+    `dict(zip(NAMES, arrays))`, dict comprehensions, `.items()`), constant strings held by loop variables, module-level tuples of names, `*args` of
+    a tuple; a mask keeps the selector name it was created under (`A2`), so a selection by it is the same sub-space under any parameter / loop
+    variable name; an index vector built in an argument list is named after the parameter; `x = None` placeholders do not erase the other arm's type.
 """
 from __future__ import annotations
 
